@@ -101,6 +101,7 @@ type scenario struct {
 
 type stats struct {
 	scenarios, published, delivered, windows, countChecked int
+	slow                                                   int // scenarios given up without a verdict: publishers still progressing after 15 minutes, or stalled without a goroutine parked in the channel
 	patterns                                               map[string]int
 }
 
@@ -294,15 +295,40 @@ func run(o *common.Opts, srv *procs.Server, sc scenario, st *stats) {
 	}
 	pubDone := make(chan struct{})
 	go func() { pwg.Wait(); close(pubDone) }()
-	select {
-	case <-pubDone:
-	case <-time.After(150 * time.Second):
-		dumped.Store(true)
-		dump := srv.Dump()
-		parked := strings.Contains(dump, "pubsub_struct.go") && (strings.Contains(dump, "net.(*conn).Write") || strings.Contains(dump, "sync.(*RWMutex)"))
-		report(witness{Kind: "publisher-blocked", Detail: fmt.Sprintf("publishers did not finish %d PUBLISHes within 150s (a subscriber that stopped reading: %v); goroutine dump shows a publisher parked in the channel: %v", sc.nPub*sc.perPub, sc.stuck, parked), Sig: "publisher-blocked"})
-		close(stopAll)
-		return
+	// bounded progress, decided on progress and not on the clock: the publishers are blocked if none of them completed
+	// a PUBLISH for 40 s (a delivery to a subscriber that stopped reading costs 3 s) and the server's goroutines show
+	// one parked in the channel. Publishers that are merely slow - a loaded machine, the race build - are waited for;
+	// a run that is still going after 15 minutes decides nothing.
+	completed := func() int { pmu.Lock(); defer pmu.Unlock(); return len(recs) }
+	lastN, lastAt, began := -1, time.Now(), time.Now()
+wait:
+	for {
+		select {
+		case <-pubDone:
+			break wait
+		case <-time.After(time.Second):
+		}
+		if n := completed(); n != lastN {
+			lastN, lastAt = n, time.Now()
+			if time.Since(began) > 15*time.Minute {
+				st.slow++
+				close(stopAll)
+				return
+			}
+			continue
+		}
+		if time.Since(lastAt) > 40*time.Second {
+			dumped.Store(true)
+			dump := srv.Dump()
+			parked := strings.Contains(dump, "pubsub_struct.go") && (strings.Contains(dump, "net.(*conn).Write") || strings.Contains(dump, "sync.(*RWMutex)") || strings.Contains(dump, "sync.(*Mutex)"))
+			if parked {
+				report(witness{Kind: "publisher-blocked", Detail: fmt.Sprintf("no PUBLISH completed for 40 s (%d of %d done; a subscriber that stopped reading: %v); the server's goroutines show a publisher parked in the channel:\n%s", lastN, sc.nPub*sc.perPub, sc.stuck, goroutineWith(dump, "pubsub_struct.go", 10)), Sig: "publisher-blocked"})
+			} else {
+				st.slow++
+			}
+			close(stopAll)
+			return
+		}
 	}
 	atomic.StoreInt32(&pubsDone, 1)
 	endPub := now()
@@ -1039,10 +1065,11 @@ func main() {
 			"definite_windows_checked": st.windows,
 			"publish_counts_checked":   st.countChecked,
 			"scenario_shapes":          st.patterns,
-			"race_build":               race,
-			"race_reports":             races,
-			"known_finding_hits":       knownHits,
-			"violation_samples":        vs,
+			"scenarios_given_up_without_verdict_(slow_publishers)": st.slow,
+			"race_build":         race,
+			"race_reports":       races,
+			"known_finding_hits": knownHits,
+			"violation_samples":  vs,
 		},
 		Assumptions: []string{"a subscriber counts as definitely subscribed to a PUBLISH only if its SUBSCRIBE confirmation was read before the PUBLISH call began and it stayed connected and reading until after the last publish; as possibly subscribed from the moment its SUBSCRIBE was written",
 			"'never block publishers indefinitely' is checked as bounded progress: the publishers must finish within 150 s although one subscriber stopped reading, otherwise the goroutine dump is the witness"}}
